@@ -51,7 +51,7 @@ type c19Prog struct {
 }
 
 var scalarTypes = []string{"bool", "int", "int8", "int16", "int32", "int64", "uint", "uint8", "uint16", "uint32", "uint64", "float32", "float64"}
-var varTypes = []string{"string", "[]int", "[]string", "[]byte", "*T", "*int", "map[string]int", "map[int]string", "chan int", "chan string", "func()", "func(int) string"}
+var varTypes = []string{"string", "[]int", "[]string", "[]byte", "*T", "*int", "map[string]int", "map[int]string", "chan int", "chan string", "<-chan int", "chan<- string", "func()", "func(int) string"}
 
 func words(t string) int {
 	switch {
@@ -126,8 +126,9 @@ func genVar(t *rapid.T, typ string) GVar {
 		v.Init = rapid.SampledFrom([]string{"new(int)", "nil"}).Draw(t, "ptrInt")
 	case "map[string]int", "map[int]string":
 		v.Init = rapid.SampledFrom([]string{typ + "{}", "nil"}).Draw(t, "map")
-	case "chan int", "chan string":
-		v.Init = rapid.SampledFrom([]string{"make(" + typ + ")", "make(" + typ + ", 2)", "nil"}).Draw(t, "chan")
+	case "chan int", "chan string", "<-chan int", "chan<- string":
+		el := typ[strings.LastIndexByte(typ, ' ')+1:]
+		v.Init = rapid.SampledFrom([]string{"make(chan " + el + ")", "make(chan " + el + ", 2)", "nil"}).Draw(t, "chan")
 	case "func()":
 		v.Init = rapid.SampledFrom([]string{"func() {}", "nil"}).Draw(t, "func")
 	case "func(int) string":
@@ -142,13 +143,21 @@ func genProg(t *rapid.T, nchains int) c19Prog {
 	for c := 0; c < nchains; c++ {
 		var ch Chain
 		nf := rapid.IntRange(1, 3).Draw(t, "nfuncs")
+		// values forwarded through several frames recur in the dump (pointer naming then sees
+		// them at least twice)
+		forwarded := map[string]uint64{}
 		for f := 0; f < nf; f++ {
 			fn := Fn{Recv: oneIn(t, 3, "method")}
 			np := rapid.IntRange(0, 7).Draw(t, "nparams")
 			for i := 0; i < np; i++ {
 				if rapid.IntRange(0, 9).Draw(t, "kindClass") < 5 {
 					typ := rapid.SampledFrom(scalarTypes).Draw(t, "scalarType")
-					fn.Params = append(fn.Params, Param{Type: typ, Bits: genScalarBits(t, typ), Var: -1})
+					bits, seen := forwarded[typ]
+					if !seen || !rapid.Bool().Draw(t, "forwardSame") {
+						bits = genScalarBits(t, typ)
+						forwarded[typ] = bits
+					}
+					fn.Params = append(fn.Params, Param{Type: typ, Bits: bits, Var: -1})
 				} else {
 					typ := rapid.SampledFrom(varTypes).Draw(t, "varType")
 					p.Vars = append(p.Vars, genVar(t, typ))
@@ -315,8 +324,31 @@ func flatCount(a *stack.Args) int {
 
 func hexPtr(v uint64) string { return fmt.Sprintf("0x%x", v) }
 
+var rePseudo = regexp.MustCompile(`#\d+`)
+
+// samePtrText: with naming on a pointer may be shown by its pseudo-name instead of its value.
+func samePtrText(got, want string, naming bool) bool {
+	if got == want {
+		return true
+	}
+	if !naming {
+		return false
+	}
+	// replace the hex pointer of the expectation by any pseudo-name
+	i := strings.Index(want, "0x")
+	if i < 0 {
+		return false
+	}
+	j := i + 2
+	for j < len(want) && isHex(want[j]) {
+		j++
+	}
+	loc := rePseudo.FindStringIndex(got)
+	return loc != nil && loc[0] == i && got[:i] == want[:i] && got[loc[1]:] == want[j:]
+}
+
 // expectProcessed returns the truthful rendering of a parameter, or a predicate for floats.
-func checkParam(pr Param, vars []GVar, ptrs map[int]uint64, got string) error {
+func checkParam(pr Param, vars []GVar, ptrs map[int]uint64, got string, naming bool) error {
 	switch pr.Type {
 	case "bool":
 		if got != strconv.FormatBool(pr.Bits != 0) {
@@ -347,11 +379,11 @@ func checkParam(pr Param, vars []GVar, ptrs map[int]uint64, got string) error {
 			return fmt.Errorf("%s %v (bits %#x) rendered %q", pr.Type, want, pr.Bits, got)
 		}
 	case "string":
-		if want := fmt.Sprintf("string(%s, len=%d)", hexPtr(ptrs[pr.Var]), vars[pr.Var].Len); got != want {
+		if want := fmt.Sprintf("string(%s, len=%d)", hexPtr(ptrs[pr.Var]), vars[pr.Var].Len); !samePtrText(got, want, naming) {
 			return fmt.Errorf("string rendered %q, want %q", got, want)
 		}
 	case "[]int", "[]string", "[]byte":
-		if want := fmt.Sprintf("%s(%s len=%d cap=%d)", pr.Type, hexPtr(ptrs[pr.Var]), vars[pr.Var].Len, vars[pr.Var].Cap); got != want {
+		if want := fmt.Sprintf("%s(%s len=%d cap=%d)", pr.Type, hexPtr(ptrs[pr.Var]), vars[pr.Var].Len, vars[pr.Var].Cap); !samePtrText(got, want, naming) {
 			return fmt.Errorf("slice rendered %q, want %q", got, want)
 		}
 	default:
@@ -359,7 +391,14 @@ func checkParam(pr Param, vars []GVar, ptrs map[int]uint64, got string) error {
 		if strings.HasPrefix(t, "func") {
 			t = "func"
 		}
-		if want := fmt.Sprintf("%s(%s)", t, hexPtr(ptrs[pr.Var])); got != want {
+		want := fmt.Sprintf("%s(%s)", t, hexPtr(ptrs[pr.Var]))
+		ok := samePtrText(got, want, naming)
+		if !ok && strings.Contains(t, "chan") {
+			// a directional channel may be spelled with or without its direction
+			el := t[strings.LastIndexByte(t, ' ')+1:]
+			ok = samePtrText(got, fmt.Sprintf("chan %s(%s)", el, hexPtr(ptrs[pr.Var])), naming)
+		}
+		if !ok {
 			return fmt.Errorf("%s rendered %q, want %q", pr.Type, got, want)
 		}
 	}
@@ -368,6 +407,12 @@ func checkParam(pr Param, vars []GVar, ptrs map[int]uint64, got string) error {
 
 func c19Opts(analyze bool) *stack.Opts {
 	return &stack.Opts{GuessPaths: true, AnalyzeSources: analyze, LocalGOROOT: runtime.GOROOT()}
+}
+
+func c19OptsNaming(analyze, naming bool) *stack.Opts {
+	o := c19Opts(analyze)
+	o.NameArguments = naming
+	return o
 }
 
 func findCall(snap *stack.Snapshot, name string) *stack.Call {
@@ -440,68 +485,71 @@ func c19Oracle(p c19Prog) error {
 			_ = os.Remove(filepath.Join(dir, "main.go"))
 		}
 	}
-	for c, cr := range crashes {
-		with, _, e1 := stack.ScanSnapshot(bytes.NewReader(cr.stderr), io.Discard, c19Opts(true))
-		without, _, e2 := stack.ScanSnapshot(bytes.NewReader(cr.stderr), io.Discard, c19Opts(false))
-		if with == nil || without == nil {
-			return fmt.Errorf("chain %d: real traceback does not parse (%v / %v): %q", c, e1, e2, quoteShort(cr.stderr))
-		}
-		if err := harmless(with, without); err != nil {
-			return fmt.Errorf("chain %d (sources: %s): %v", c, mutationNames[p.Mutate], err)
-		}
-		if p.Mutate != 0 {
-			st.count(1, 1)
-			st.class("mismatching_sources_"+strings.ReplaceAll(mutationNames[p.Mutate], " ", "_"), 1)
-			continue
-		}
-		for f, fn := range p.Chains[c].Funcs {
-			name := fnName(c, f)
-			if fn.Recv {
-				name = "(*T)." + name
+	for ci, cr := range crashes {
+		for _, naming := range []bool{false, true} {
+			c := ci
+			with, _, e1 := stack.ScanSnapshot(bytes.NewReader(cr.stderr), io.Discard, c19OptsNaming(true, naming))
+			without, _, e2 := stack.ScanSnapshot(bytes.NewReader(cr.stderr), io.Discard, c19OptsNaming(false, naming))
+			if with == nil || without == nil {
+				return fmt.Errorf("chain %d: real traceback does not parse (%v / %v): %q", c, e1, e2, quoteShort(cr.stderr))
 			}
-			call := findCall(with, name)
-			if call == nil {
-				return fmt.Errorf("chain %d: frame %s not found in the traceback", c, name)
+			if err := harmless(with, without); err != nil {
+				return fmt.Errorf("chain %d (sources: %s): %v", c, mutationNames[p.Mutate], err)
 			}
-			params := fn.Params
-			if fn.Recv {
-				params = append([]Param{{Type: "*T", Var: 0}}, params...)
-			}
-			printed := flatCount(&call.Args)
-			w := 0
-			checked := 0
-			for i, pr := range params {
-				w += words(pr.Type)
-				if w > printed {
-					break // the runtime elided the rest
-				}
-				if i >= len(call.Args.Processed) {
-					return fmt.Errorf("%s: parameter %d (%s) was printed by the runtime but not rendered: %q\nraw: %s", name, i, pr.Type, call.Args.Processed, call.Args.String())
-				}
-				if err := checkParam(pr, p.Vars, cr.ptrs, call.Args.Processed[i]); err != nil {
-					var sig []string
-					for _, q := range params {
-						sig = append(sig, q.Type)
-					}
-					return fmt.Errorf("%s(%s): parameter %d: %v\nrendered: %q", name, strings.Join(sig, ", "), i, err, call.Args.Processed)
-				}
-				checked++
-			}
-			nt := false
-			kinds := map[string]bool{}
-			for i, pr := range params {
-				kinds[pr.Type] = true
-				if i > 0 && words(pr.Type) == 1 && pr.Var < 0 && (words(params[i-1].Type) > 1 || params[i-1].Var >= 0) {
-					nt = true
-				}
-			}
-			if nt && len(params) >= 3 && len(kinds) >= 3 {
+			if p.Mutate != 0 {
 				st.count(1, 1)
-				st.class("position_dependent_decoding", 1)
-			} else {
-				st.count(1, 0)
+				st.class("mismatching_sources_"+strings.ReplaceAll(mutationNames[p.Mutate], " ", "_"), 1)
+				continue
 			}
-			st.class("parameters_checked", int64(checked))
+			for f, fn := range p.Chains[c].Funcs {
+				name := fnName(c, f)
+				if fn.Recv {
+					name = "(*T)." + name
+				}
+				call := findCall(with, name)
+				if call == nil {
+					return fmt.Errorf("chain %d: frame %s not found in the traceback", c, name)
+				}
+				params := fn.Params
+				if fn.Recv {
+					params = append([]Param{{Type: "*T", Var: 0}}, params...)
+				}
+				printed := flatCount(&call.Args)
+				w := 0
+				checked := 0
+				for i, pr := range params {
+					w += words(pr.Type)
+					if w > printed {
+						break // the runtime elided the rest
+					}
+					if i >= len(call.Args.Processed) {
+						return fmt.Errorf("%s: parameter %d (%s) was printed by the runtime but not rendered: %q\nraw: %s", name, i, pr.Type, call.Args.Processed, call.Args.String())
+					}
+					if err := checkParam(pr, p.Vars, cr.ptrs, call.Args.Processed[i], naming); err != nil {
+						var sig []string
+						for _, q := range params {
+							sig = append(sig, q.Type)
+						}
+						return fmt.Errorf("%s(%s) (naming=%v): parameter %d: %v\nrendered: %q", name, strings.Join(sig, ", "), naming, i, err, call.Args.Processed)
+					}
+					checked++
+				}
+				nt := false
+				kinds := map[string]bool{}
+				for i, pr := range params {
+					kinds[pr.Type] = true
+					if i > 0 && words(pr.Type) == 1 && pr.Var < 0 && (words(params[i-1].Type) > 1 || params[i-1].Var >= 0) {
+						nt = true
+					}
+				}
+				if nt && len(params) >= 3 && len(kinds) >= 3 {
+					st.count(1, 1)
+					st.class("position_dependent_decoding", 1)
+				} else {
+					st.count(1, 0)
+				}
+				st.class("parameters_checked", int64(checked))
+			}
 		}
 	}
 	return nil
@@ -526,6 +574,6 @@ func init() { register(c19.key(), c19.Oracle) }
 
 func TestC19(t *testing.T) {
 	c := c19
-	c.Checks = n(6, 60)
+	c.Checks = n(8, 60)
 	c.Run(t)
 }
